@@ -196,3 +196,29 @@ def h2(ctx: Ctx) -> None:
     from .c02 import r1 as order_rule
 
     order_rule(ctx)
+
+
+@rule("C03.R5", "progress of the walk (necessary for termination): every iteration that continues has popped an order or allocated a positive volume, and an allocation exhausts at least one side", "T4 progress on every continuing path", floor=2)
+def r5(ctx: Ctx) -> None:
+    w = analyse_walk(ctx)
+    f = ctx.func(EXEC)
+    n = 0
+    bad = []
+    for bp in w.body:
+        if bp.exit not in ("fall", "continue"):
+            continue
+        n += 1
+        if not bp.pops and bp.appended is None:
+            bad.append(bp.path.describe()[:160])
+    ctx.check(not bad, f, w.loop.node, "no iteration continues without consuming from a queue or allocating volume", "pop or allocation on every continuing path", f"{len(bad)} idle path(s): {bad[:1]}" if bad else f"{n} continuing paths all make progress")
+    # an allocation of min(b, s) > 0 leaves at least one side at zero, so the next iteration pops or stops
+    ok = True
+    pos = 0
+    for bp in w.body:
+        if bp.appended is None:
+            continue
+        vol = bp.appended[1][0]
+        zero_guard = any((not pol) and strip_ver(c)[0] == "cmp" and strip_ver(c)[1] == "==" and ("const", 0) in (strip_ver(c)[2], strip_ver(c)[3]) and strip_ver(vol) in (strip_ver(c)[2], strip_ver(c)[3]) for c, pol, _ in bp.path.conds)
+        pos += 1
+        ok = ok and zero_guard and vol[0] == "call" and key(vol[1]) == "min"
+    ctx.check(ok and pos >= 1, f, w.loop.node, "allocated volume is min(remaining buy, remaining sell) and is checked to be non-zero", "volume = min(b, s); volume == 0 -> raise", f"{pos} allocating path(s), all guarded: {ok}")
